@@ -242,7 +242,10 @@ void Runner::op_poll(Thread *t, int idx, const Op &op_in, OpRes &res) {
     HState *h = hv[who];
     if (!h || h->dl_lo_ms < 0) { viol("C08", "deadline-event-on-source-without-deadline", "sources=" + pat, fmt("source %zu has no deadline", who), idx); return; }
     if (t1ms < h->dl_lo_ms) viol("C08", "deadline-event-early", "sources=" + pat, fmt("deadline event at %lld ms, deadline is %lld ms", (long long) t1ms, (long long) h->dl_lo_ms), idx);
-    if (earliest_hi >= 0 && h->dl_lo_ms > earliest_hi)
+    // clock readings for different sources are taken at different instants: deadlines closer together than the time that passed
+    // inside the call (outside the blocking poll) count as tied
+    int64_t jit_ms = ((res.t1_ns - res.t0_ns) - res.parked_ns) / 1000000 + 1;
+    if (earliest_hi >= 0 && h->dl_lo_ms > earliest_hi + jit_ms)
       viol("C08", "deadline-event-wrong-source", "sources=" + pat, fmt("source %zu (deadline %lld ms) is not the one with the earliest deadline (%lld ms)", who,
                                                                       (long long) h->dl_lo_ms, (long long) earliest_hi), idx);
     if (timeout >= 0 && std::max(t0ms, cx.last_clock_ms) + timeout + 1 < h->dl_lo_ms)
